@@ -509,7 +509,7 @@ def _cases_file(imports, fexpr, chunk, show_idx=None):
     return "\n".join(lines) + "\n"
 
 
-def coq_cases(tag, imports, fexpr, cases, shard=400, timeout=900, jobs=None):
+def coq_cases(tag, imports, fexpr, cases, shard=400, timeout=900, jobs=None, show_max=8):
     """cases: list of (input_gallina, expected_cv_gallina).  Returns {index: model_output_string} for the
     cases on which the model (fexpr : input -> cv) differs from the expected value.  Raises on a Coq error
     (a model that no longer evaluates is a broken tie, never a pass)."""
@@ -532,7 +532,7 @@ def coq_cases(tag, imports, fexpr, cases, shard=400, timeout=900, jobs=None):
         res = {}
         if idx:
             with open(path, "w") as f:
-                f.write(_cases_file(imports, fexpr, chunk, show_idx=idx[:8]))
+                f.write(_cases_file(imports, fexpr, chunk, show_idx=idx[:show_max]))
             rc, out2 = _run_coqc(path, timeout)
             shown = re.findall(r'=\s*"((?:[^"]|"")*)"(?:%string)?\s*:\s*string', out2)
             for j, i in enumerate(idx):
